@@ -52,6 +52,11 @@ def corpus(rng, n_each):
         items.append(('plan', plangen.gen_statement(rng, plangen.ALL_FEATURES)[0], rng.choice(cats)))
     for s in plangen.EDGE_STATEMENTS + c14.EDGE:
         items.append(('plan', s, 'names'))
+    for s in ['select * from proj.pred where a = 1', 'select * from proj.pred.3 where a = 1', 'select * from proj.pred.7 where a = 1 and b = 2',
+              'select * from int1.t1 join proj.pred.3 as m', 'select * from int1.t1 join proj.pred as m', 'select * from proj.pred2 where a = 1',
+              'select * from PROJ.pred where a = 1', 'select * from proj.pred2.2 where a = 1']:
+        for c in cats:
+            items.append(('plan', s, c))
     for s in ['select * from nowhere', 'select * from int1.t1 join proj.pred as m join proj.pred2', 'select * from proj.pred',
               'select * from int1.t1 as t join proj.pred as m where t.zz.q = 1']:
         items.append(('plan', s, 'names'))
@@ -238,18 +243,21 @@ def run(tier, seed, replay=None):
     for it, a, b in diff[:2]:
         report('order', it, a, b)
     # 2b. catalog objects re-used across calls
-    cats = {k: copy.deepcopy(v) for k, v in plangen.catalogs()}
-    pristine = copy.deepcopy(cats)
+    pristine = {k: copy.deepcopy(v) for k, v in plangen.catalogs()}
     diff = []
-    for it in order:
-        if it[0] == 'plan':
-            r = run_one(it, catalogs=cats)
-            if r != ref[it]:
-                diff.append((it, ref[it], r))
+    modified = set()
+    for this_order in (order, list(reversed(order)), sorted(order)):
+        cats = {k: copy.deepcopy(v) for k, v in plangen.catalogs()}
+        for it in this_order:
+            if it[0] == 'plan':
+                r = run_one(it, catalogs=cats)
+                if r != ref[it]:
+                    diff.append((it, ref[it], r))
+        modified |= {k for k in cats if cats[k] != pristine[k]}
     R.obligation('same plans when the catalog objects are re-used across calls', not diff)
     for it, a, b in diff[:2]:
         report('catalog_reuse', it, a, b)
-    stats['catalog_objects_modified'] = [k for k in cats if cats[k] != pristine[k]]
+    stats['catalog_objects_modified'] = sorted(modified)
     # 2c. threads
     old = sys.getswitchinterval()
     sys.setswitchinterval(1e-6)
